@@ -378,8 +378,10 @@ static void merge_bag(void *clos, const uint8_t *key, size_t len_key,
 		unsigned b = j + 1 < n1 ? (unsigned)(v1[j] << 8 | v1[j + 1]) : 0x10000;
 		unsigned t;
 		if (a <= b) { t = a; i += 2; } else { t = b; j += 2; }
-		r[k++] = (uint8_t)(t >> 8); r[k++] = (uint8_t)t;
 		if ((int)t == mc->failtok) fail = true;
+		/* tokens from 0x8000 on cancel in pairs (the bag keeps their parity): a merged value can be shorter than its operands, and empty */
+		if (t >= 0x8000 && k >= 2 && r[k - 2] == (uint8_t)(t >> 8) && r[k - 1] == (uint8_t)t) { k -= 2; continue; }
+		r[k++] = (uint8_t)(t >> 8); r[k++] = (uint8_t)t;
 	}
 	if (merge_log) {
 		struct sbuf s = {0};
@@ -537,10 +539,23 @@ static int count_fds(void) {
 static int count_maps(const char *needle) {
 	FILE *f = fopen("/proc/self/maps", "r");
 	if (!f) return -1;
-	char line[4096];
+	char line[4096], prev_path[4096] = "";
+	unsigned long prev_end = 0, prev_off_end = 0;
 	int n = 0;
-	while (fgets(line, sizeof line, f))
-		if (strstr(line, needle)) n++;
+	/* one mapping of a file can show as several adjacent lines (madvise over a part of it splits the kernel's record): lines of
+	 * the same file that continue the previous line's address range are the same mapping */
+	while (fgets(line, sizeof line, f)) {
+		if (!strstr(line, needle)) { prev_path[0] = 0; continue; }
+		unsigned long a = 0, b = 0, off = 0;
+		sscanf(line, "%lx-%lx %*s %lx", &a, &b, &off);
+		const char *path = strchr(line, '/');
+		if (!path) path = "";
+		/* ... and the file offset continues too (two mappings of one file that happen to be neighbours both start at offset 0) */
+		if (!(prev_path[0] && a == prev_end && off == prev_off_end && !strcmp(path, prev_path))) n++;
+		prev_end = b;
+		prev_off_end = off + (b - a);
+		snprintf(prev_path, sizeof prev_path, "%s", path);
+	}
 	fclose(f);
 	return n;
 }
